@@ -202,7 +202,7 @@ async fn run_hist(store: &SqliteStore, h: &Hist, ch: &Chooser) -> Obs {
 
 fn exec(h: &Hist, ch: &Chooser) -> Obs {
     let ctx = Ctx::take();
-    let store = ctx.store.clone();
+    let store = ctx.store();
     let r = catch(|| ctx.rt.block_on(run_hist(&store, h, ch)));
     match r {
         Ok(o) => {
